@@ -1,18 +1,20 @@
 (* C19 — workload and cluster descriptions are instantiated faithfully.
-   Only statements; the proofs are in Proofs/ReleaseP*.v, the model in Model/Release.v. *)
+   Only statements; the proofs are in Proofs/ReleaseP*.v, the model in Model/Release.v
+   (EventTime arithmetic: the translated Gen/Src_Time.v). *)
 From Coq Require Import ZArith Bool List Sorting.Sorted.
 Import ListNotations.
-From Verif Require Import Model.Val Gen.Src_Time Proofs.TimeP Model.Release Proofs.ReleaseP1.
+From Verif Require Import Model.Val Gen.Src_Time Proofs.TimeP Model.Release
+  Proofs.ReleaseP1 Proofs.ReleaseP2 Proofs.ReleaseP3 Proofs.ReleaseP4 Proofs.ReleaseP5.
 Open Scope Z_scope.
 
-(* fixed: N releases one period apart from the start *)
+(* ---- fixed: N releases one period apart from the start *)
 Theorem C19_fixed : forall p c zd fd, p_type p = FIXED -> 0 <= p_n p ->
   get_release_times p c zd fd =
   Ok (map (fun i => us_time (us (p_start p) + Z.of_nat i * us (p_period p))) (seq 0 (Z.to_nat (p_n p)))).
 Proof. exact fixed_release_times. Qed.
 Print Assumptions C19_fixed.
 
-(* periodic: every period from the start, strictly before the horizon *)
+(* ---- periodic: every period from the start, strictly before the horizon *)
 Theorem C19_periodic : forall p c zd fd, p_type p = PERIODIC -> p_n p <> 0 -> us (p_period p) <> 0 ->
   get_release_times p c zd fd = Ok (periodic_spec (us (p_start p)) (us (p_period p)) (us c)).
 Proof. exact periodic_release_times. Qed.
@@ -22,7 +24,7 @@ Theorem C19_periodic_members : forall s per c t, 0 < per ->
 Proof. exact periodic_spec_In. Qed.
 Print Assumptions C19_periodic_members.
 
-(* poisson: N releases, the first at the start, non-decreasing, each the start plus the draws so far *)
+(* ---- poisson: N releases, the first at the start, non-decreasing, each the start plus the draws so far *)
 Theorem C19_poisson : forall p c zd fd rs, p_type p = POISSON -> Forall (fun d => 0 <= d) zd ->
   get_release_times p c zd fd = Ok rs -> p_n p <> 0 ->
   length rs = Z.to_nat (p_n p) /\ hd_error rs = Some (p_start p) /\ nondecreasing rs /\
@@ -34,8 +36,93 @@ Theorem C19_poisson_total : forall p c zd fd, p_type p = POISSON -> 0 < p_n p ->
 Proof. exact poisson_total. Qed.
 Print Assumptions C19_poisson_total.
 
-(* closed loop: min(concurrency, N) graphs at the start *)
+(* ---- gamma: N releases from the start, non-decreasing for EVERY list of non-negative doubles
+   (binary64 additions and round() included), as long as the start is below 2^53 us *)
+Theorem C19_gamma : forall p c zd fd rs, p_type p = GAMMA -> Z.abs (et_time (p_start p)) < 2 ^ 53 ->
+  Forall (fun d => 0 <= fm d) fd -> get_release_times p c zd fd = Ok rs -> p_n p <> 0 ->
+  length rs = Z.to_nat (p_n p) /\ hd_error rs = Some (us_time (et_time (p_start p))) /\ nondecreasing rs.
+Proof. exact gamma_release_times. Qed.
+Print Assumptions C19_gamma.
+Theorem C19_gamma_first_is_start : forall p c zd fd rs, p_type p = GAMMA -> et_unit (p_start p) = U_US ->
+  get_release_times p c zd fd = Ok rs -> p_n p <> 0 -> hd_error rs = Some (p_start p).
+Proof. exact gamma_first_is_start. Qed.
+Print Assumptions C19_gamma_first_is_start.
+(* finding C19-gamma-start-unit: with a start in ms or s the first release is NOT the start *)
+Theorem C19_gamma_first_refuted : exists p c fd rs, p_type p = GAMMA /\ get_release_times p c [] fd = Ok rs /\
+  Forall (fun d => 0 <= fm d) fd /\ exists r0, hd_error rs = Some r0 /\ us r0 <> us (p_start p).
+Proof. exact gamma_first_refuted. Qed.
+Print Assumptions C19_gamma_first_refuted.
+(* beyond 2^53 us the int -> double conversion of the start loses the order *)
+Theorem C19_gamma_huge_start_refuted : exists p c fd rs, p_type p = GAMMA /\ get_release_times p c [] fd = Ok rs /\
+  Forall (fun d => 0 <= fm d) fd /\ ~ nondecreasing rs.
+Proof. exact gamma_huge_start_refuted. Qed.
+Print Assumptions C19_gamma_huge_start_refuted.
+(* fixed + gamma: N releases, sorted *)
+Theorem C19_fixed_gamma : forall p c zd fd rs, p_type p = FIXED_AND_GAMMA ->
+  get_release_times p c zd fd = Ok rs -> p_n p <> 0 -> length rs = Z.to_nat (p_n p) /\ nondecreasing rs.
+Proof. exact fixed_gamma_release_times. Qed.
+Print Assumptions C19_fixed_gamma.
+
+(* ---- the binary64 facts everything above rests on *)
+Theorem C19_round_monotone : forall x y, fl_leb x y = true -> py_round x <= py_round y.
+Proof. exact py_round_mono. Qed.
+Print Assumptions C19_round_monotone.
+Theorem C19_add_nonneg_monotone : forall cur d, Z.abs (fm cur) <= 2 ^ 53 -> 0 <= fm d -> fl_leb cur (fl_add cur d) = true.
+Proof. exact fl_add_nonneg_ge. Qed.
+Print Assumptions C19_add_nonneg_monotone.
+
+(* ---- closed loop *)
 Theorem C19_closed_loop_initial : forall p c zd fd, p_type p = CLOSED_LOOP -> 0 < p_n p -> 0 < p_conc p ->
   get_release_times p c zd fd = Ok (repeat (p_start p) (Z.to_nat (Z.min (p_conc p) (p_n p)))).
 Proof. exact closed_loop_initial. Qed.
 Print Assumptions C19_closed_loop_initial.
+(* at every state reachable under the caller's contract (each notification is for a graph in flight, hence
+   one notification per graph): in flight <= concurrency, released <= N, and released = min(N, initial + completions) *)
+Theorem C19_closed_loop : forall conc n gs s, 0 < conc -> 0 < n -> cl_run (cl_init conc n) gs = Some s ->
+  Z.of_nat (length (cl_live s)) <= conc /\ cl_total s <= n /\
+  cl_total s = Z.min n (Z.min conc n + Z.of_nat (length gs)).
+Proof. exact closed_loop_safe. Qed.
+Print Assumptions C19_closed_loop.
+(* F12a: without the contract (a second notification for the same graph) the bound is lost *)
+Theorem C19_closed_loop_double_notify_refuted : exists conc n gs s, 0 < conc /\ 0 < n /\
+  cl_run_any (cl_init conc n) gs = Some s /\ conc < Z.of_nat (length (cl_live s)).
+Proof. exact closed_loop_double_notify_refuted. Qed.
+Print Assumptions C19_closed_loop_double_notify_refuted.
+
+(* ---- deadlines: EventTime.fuzz stays inside the integer envelope of time*(variance/100), clamped to the bounds,
+   for every uniform draw inside that envelope *)
+Theorem C19_fuzz_bounds : forall t u minv maxv minb maxb,
+  Z.abs t < 2 ^ 53 -> uniform_contract t minv maxv u = true ->
+  Z.abs (t + clampZ minb maxb (var_lo t minv maxv)) <= 2 ^ 53 ->
+  Z.abs (t + clampZ minb maxb (var_hi t minv maxv)) <= 2 ^ 53 ->
+  t + clampZ minb maxb (var_lo t minv maxv) <= fuzz_time t u minb maxb <= t + clampZ minb maxb (var_hi t minv maxv).
+Proof. exact fuzz_time_bounds. Qed.
+Print Assumptions C19_fuzz_bounds.
+Theorem C19_fuzz_contract_satisfiable : forall t minv maxv, 0 <= t ->
+  uniform_contract t minv maxv (mkF (var_lo t minv maxv) 0) = true.
+Proof. exact uniform_contract_sat. Qed.
+Print Assumptions C19_fuzz_contract_satisfiable.
+
+(* ---- monitors = statements *)
+Theorem C19_mon_fixed : forall s per n obs, mon_fixed s per n obs = true <-> map us_time obs = fixed_spec s per n.
+Proof. exact mon_fixed_iff. Qed.
+Print Assumptions C19_mon_fixed.
+Theorem C19_mon_periodic : forall s per c obs, mon_periodic s per c obs = true <-> map us_time obs = periodic_spec s per c.
+Proof. exact mon_periodic_iff. Qed.
+Print Assumptions C19_mon_periodic.
+Theorem C19_mon_arrivals : forall s n obs, 0 < n ->
+  (mon_arrivals s n obs = true <-> Z.of_nat (length obs) = n /\ hd_error obs = Some s /\ Sorted Z.le obs).
+Proof. exact mon_arrivals_iff. Qed.
+Print Assumptions C19_mon_arrivals.
+Theorem C19_mon_deadline : forall ct minv maxv minb maxb stretch,
+  mon_deadline ct minv maxv minb maxb stretch = true <->
+  clampZ minb maxb (var_lo ct minv maxv) <= stretch - ct <= clampZ minb maxb (var_hi ct minv maxv).
+Proof. exact mon_deadline_iff. Qed.
+Print Assumptions C19_mon_deadline.
+Theorem C19_mon_closed_loop : forall conc n log i t, mon_closed_loop conc n i t log = true <-> log_ok conc n i t log.
+Proof. exact mon_closed_loop_iff. Qed.
+Print Assumptions C19_mon_closed_loop.
+Theorem C19_mon_iso_sound : forall jobs tasks, mon_iso jobs tasks = true ->
+  length jobs = length tasks /\ (forall k cs, In (k, cs) jobs -> In (k, cs) tasks).
+Proof. exact mon_iso_sound. Qed.
+Print Assumptions C19_mon_iso_sound.
